@@ -29,8 +29,9 @@ func Equal(a, b any) bool { //nolint: gocyclo
 		return true
 	case reflect.Bool:
 		return ra.Bool() == rb.Bool()
-	case reflect.Int, reflect.Int8, reflect.Int16, reflect.Int32, reflect.Int64:
-		return ra.Convert(int64Type).Int() == rb.Convert(int64Type).Int()
+	case reflect.Int, reflect.Int8, reflect.Int16, reflect.Int32, reflect.Int64,
+		reflect.Uint, reflect.Uint8, reflect.Uint16, reflect.Uint32, reflect.Uint64:
+		return compareInts(ra, rb) == 0
 	case reflect.Float32, reflect.Float64:
 		return ra.Convert(float64Type).Float() == rb.Convert(float64Type).Float()
 	case reflect.String:
@@ -59,14 +60,47 @@ func Less(a, b any) bool {
 	switch joinKind(ra.Kind(), rb.Kind()) {
 	case reflect.Bool:
 		return !ra.Bool() && rb.Bool()
-	case reflect.Int, reflect.Int8, reflect.Int16, reflect.Int32, reflect.Int64:
-		return ra.Convert(int64Type).Int() < rb.Convert(int64Type).Int()
+	case reflect.Int, reflect.Int8, reflect.Int16, reflect.Int32, reflect.Int64,
+		reflect.Uint, reflect.Uint8, reflect.Uint16, reflect.Uint32, reflect.Uint64:
+		return compareInts(ra, rb) < 0
 	case reflect.Float32, reflect.Float64:
 		return ra.Convert(float64Type).Float() < rb.Convert(float64Type).Float()
 	case reflect.String:
 		return ra.String() < rb.String()
 	default:
 		return false
+	}
+}
+
+// compareInts compares two integers of any width and signedness by value.
+func compareInts(ra, rb reflect.Value) int {
+	ua, ub := isUintKind(ra.Kind()), isUintKind(rb.Kind())
+	switch {
+	case ua && ub:
+		return cmpOrdered(ra.Uint(), rb.Uint())
+	case ua:
+		if rb.Int() < 0 {
+			return 1
+		}
+		return cmpOrdered(ra.Uint(), uint64(rb.Int()))
+	case ub:
+		if ra.Int() < 0 {
+			return -1
+		}
+		return cmpOrdered(uint64(ra.Int()), rb.Uint())
+	default:
+		return cmpOrdered(ra.Int(), rb.Int())
+	}
+}
+
+func cmpOrdered[T int64 | uint64](a, b T) int {
+	switch {
+	case a < b:
+		return -1
+	case a > b:
+		return 1
+	default:
+		return 0
 	}
 }
 
@@ -79,7 +113,8 @@ func joinKind(a, b reflect.Kind) reflect.Kind { //nolint: gocyclo
 		if b == reflect.Array || b == reflect.Slice {
 			return reflect.Slice
 		}
-	case reflect.Int, reflect.Int8, reflect.Int16, reflect.Int32, reflect.Int64:
+	case reflect.Int, reflect.Int8, reflect.Int16, reflect.Int32, reflect.Int64,
+		reflect.Uint, reflect.Uint8, reflect.Uint16, reflect.Uint32, reflect.Uint64:
 		if isIntKind(b) {
 			return reflect.Int64
 		}
@@ -97,6 +132,15 @@ func joinKind(a, b reflect.Kind) reflect.Kind { //nolint: gocyclo
 func isIntKind(k reflect.Kind) bool {
 	switch k {
 	case reflect.Int, reflect.Int8, reflect.Int16, reflect.Int32, reflect.Int64:
+		return true
+	default:
+		return isUintKind(k)
+	}
+}
+
+func isUintKind(k reflect.Kind) bool {
+	switch k {
+	case reflect.Uint, reflect.Uint8, reflect.Uint16, reflect.Uint32, reflect.Uint64:
 		return true
 	default:
 		return false
